@@ -124,7 +124,7 @@ func checkC15(c *Ctx) error {
 		add("Diagnostics", 3, x, y, z, 1)
 		k++
 	}
-	dupBodies := []int{0, 10, 100, 110, 200, 210, 201, 300, 400, 500, 600}
+	dupBodies := []int{0, 10, 20, 100, 110, 120, 200, 210, 220, 201, 202, 600, 610, 620}
 	for _, a := range dupBodies {
 		for _, b := range dupBodies {
 			add("Duplicate", a, b)
